@@ -734,10 +734,17 @@ def run_generic(ctx, model, MT):
     probs, mism = [], []
     stats = {"lines": len(mine), "rc": rc, "offsetof_cases": 0, "reference_toolchain_lines_compared": 0, "bad": 0}
     inst = {tn: (term, cmp_) for tn, _, term, cmp_ in GEN_INST}
-    # model predictions
+    # model predictions.  `chainOffset` takes "written in the source / inserted for promotion" per step as an input; the
+    # code derives it from the source text (isExplicitFieldAddr), which takes a promotion step for a written selector when
+    # the variable is named like the embedded field.  Which behaviour this tree has is read off the program's own output.
+    text_rule = any(l.split()[0] == "gen" and (GEN_CASES[int(l.split()[2])][0], GEN_CASES[int(l.split()[2])][1]) in GEN_NAME_PREFIX_CASES
+                    and l.split()[3] != l.split()[4] for l in mine)
+    stats["explicit_selector_rule"] = "source-text prefix (as is)" if text_rule else "selector after a dot (fixes/C08-5)"
     req = []
     for tn, _, term, _ in GEN_INST:
         for ci, (r, sel, op, path) in enumerate(GEN_CASES):
+            if text_rule and (r, sel) in GEN_NAME_PREFIX_CASES:
+                path = path.replace("i", "e")        # what isExplicitFieldAddr answers for these steps
             req.append("ch %s %s %s" % (MT["amd64"], GEN_TERMS[r].replace("X", term), path))
     pred = dict(zip([(tn, ci) for tn, _, _, _ in GEN_INST for ci in range(len(GEN_CASES))], model(req)))
     con, gsz, csz = {}, {}, {}
@@ -1076,7 +1083,7 @@ def run(ctx, args):
     spec_fail_keys = {}
     pending = []
     for (i, mt, d) in failing:
-        if meta[i][2] is None and meta[i][1][0] in ("F", "F1") and d["a"] == d["b"] == d["c"] and d["e"][1] == d["b"][1]:
+        if meta[i][2] is None and repair_alias(meta[i][1])[0] in ("F", "F1") and d["a"] == d["b"] == d["c"] and d["e"][1] == d["b"][1]:
             # an unnamed function type: only the referenced descriptor's size differs (one word for a two-word value)
             key = "layout:%s:func-descriptor-size" % mt
             spec_fail_keys[key] = spec_fail_keys.get(key, 0) + 1
@@ -1408,14 +1415,15 @@ def run(ctx, args):
         "gcc 12 / clang 14 on the amd64 host as the reference for the natural C layout (spec validation of cLayout)",
         "cause attribution of disagreements re-queries the real code on a repaired term (Python rewrites in checks/c08.py)",
     ]
-    ctx.assumptions += ["PtrBytes of descriptors is not part of the property text and is neither modelled nor judged",
+    ctx.assumptions += ["`//llgo:type C` types are judged by the specification only (not in the Lean model); the written/promoted flag of each selector step is an input of the per-instance Offsetof model",
                         "only amd64 executes; the other four targets are covered through their data layouts (numbers computed at compile time)",
                         "named types with C background (InC) and sync/atomic.align64 are not generated"]
     return ctx.finish("proof", {"evaluations": len(lr) + len(cterms) + e2e_stats["structs"], "distinct_nontrivial": len(nontrivial),
                                "rule": "one request = one (target, type term) through all three real computations and the model; non-trivial = term with at least 3 layout-relevant sub-terms; distinct by term text",
                                "input_distribution": {"requests": stats, "per_target": per_target, "generator_depths": depth_hist,
                                                       "c_compatible_vs_gcc": len(cterms), "e2e_amd64": e2e_stats,
-                                                      "causes_of_disagreement": spec_fail_keys, "unexplained": len(unexplained)},
+                                                      "causes_of_disagreement": spec_fail_keys, "unexplained": len(unexplained),
+                                                      "ptrbytes": pb_stats},
                                "spec_failures_on_real_code": stats["disagree"], "correspondence_mismatches": len(mism),
                                "map_descriptor_spec": "independent (checks/c08.py map_spec): flags, KeySize/ValueSize, BucketSize and the runtime's slot addressing recomputed from key/elem size+alignment in generated code; boundary types of 127/128/129 bytes generated systematically; unexplained map descriptors %d" % n_mb,
                                "sizes_overrides": {k: list(v) for k, v in overrides.items()}})
